@@ -734,6 +734,7 @@ def execute(prog, sspec, world_cls=CacheWorld, keep_log=False):
     w = world_cls(prog, sch, aa)
     sch.on_advance = w.on_advance
     seams = AsyncioSeams(aa).install()
+    sch.seams = seams
     install_policy()
     try:
         try:
